@@ -206,6 +206,102 @@ theorem c07_model_ok_gen (O : Oracles) (X : XmlOracle) (a : ActionDecl) (status 
     ok O X a status body (observe genAnc (decode O X a status body)) = true :=
   c07_model_ok O X genAnc exc_hierarchy_pin a status body
 
+/-! ### the clauses, declaratively (no reading of `okDoc` needed) -/
+
+/-- what `decode` does with a parsed 200 answer that holds no fault -/
+theorem decode_200_nofault (O : Oracles) (X : XmlOracle) (a : ActionDecl) (text : Str) (doc : Xml)
+    (hx : X (rstripPad text) = some (some doc)) (hf : faults doc = []) :
+    decode O X a 200 (some text) = parseResponseArgs O a doc := by
+  have h200 : ((200 : Int) != 200) = false := by decide
+  unfold decode
+  simp only [h200, hx, parseFault_none doc hf]
+  rfl
+
+/-- **Success.**  A 200 answer whose document holds no fault and whose (first) response element in
+    the service-type namespace is `r`: if every present declared out-argument has convertible text and
+    (strict mode) every child is a declared out-argument, `async_call` RETURNS a mapping whose keys
+    are distinct, are exactly the declared out-argument names present among `r`'s children — in any
+    order, with any duplicates — and each value is the declared conversion of an occurrence's text. -/
+theorem decode_success (O : Oracles) (X : XmlOracle) (a : ActionDecl) (text : Str) (doc r : Xml)
+    (hx : X (rstripPad text) = some (some doc)) (hf : faults doc = [])
+    (hr : doc.findDesc (responseTag a) = some r)
+    (hconv : convertible O a r.children = true)
+    (hmode : a.strict = false ∨ ∀ c ∈ r.children, isOutName a c.tag = true) :
+    ∃ items, decode O X a 200 (some text) = .ret items
+      ∧ (keys items).Nodup
+      ∧ (∀ q ∈ items, ∃ c ∈ r.children, c.tag = q.1 ∧ decoded O a c = some q.2)
+      ∧ (∀ c ∈ r.children, isOutName a c.tag = true → c.tag ∈ keys items) := by
+  obtain ⟨items, hok, hinv⟩ := readOutArgs_ok O a r.children [] [] hconv hmode ⟨by simp [keys], by simp, by simp⟩
+  refine ⟨items, ?_, hinv.nodup, ?_, ?_⟩
+  · rw [decode_200_nofault O X a text doc hx hf]
+    unfold parseResponseArgs findResponse
+    rw [hr]
+    simp only [hok]
+  · simpa using hinv.sound
+  · simpa using hinv.complete
+
+/-- **Unknown out-argument, strict mode**: a library error (`UpnpError`), whatever else is present. -/
+theorem decode_unknown_strict (O : Oracles) (X : XmlOracle) (a : ActionDecl) (text : Str) (doc r : Xml)
+    (hx : X (rstripPad text) = some (some doc)) (hf : faults doc = [])
+    (hr : doc.findDesc (responseTag a) = some r) (hs : a.strict = true)
+    (hconv : convertible O a r.children = true)
+    (hun : (r.children.any fun c => !isOutName a c.tag) = true) :
+    decode O X a 200 (some text) = .exc .unknownArg := by
+  rw [decode_200_nofault O X a text doc hx hf]
+  unfold parseResponseArgs findResponse
+  rw [hr]
+  simp only [readOutArgs_unknown O a hs r.children [] hconv hun]
+
+/-- **Response element only in a foreign namespace**: strict ⇒ library error; non-strict ⇒ the
+    element found by local name is decoded like the proper one (`decode_success` applies to it). -/
+theorem decode_foreign_ns (O : Oracles) (X : XmlOracle) (a : ActionDecl) (text : Str) (doc : Xml)
+    (hx : X (rstripPad text) = some (some doc)) (hf : faults doc = [])
+    (hr : doc.findDesc (responseTag a) = none) :
+    decode O X a 200 (some text) =
+      (if a.strict then .exc .invalidResponse
+       else match doc.findDescLocal (a.name ++ "Response".toList) with
+         | none => .exc .invalidResponse
+         | some r => match readOutArgs O a r.children [] with
+             | .ok args => .ret args
+             | .error e => .exc e) := by
+  rw [decode_200_nofault O X a text doc hx hf]
+  unfold parseResponseArgs findResponse
+  rw [hr]
+  cases a.strict
+  · simp only [Bool.not_false, if_true, Bool.false_eq_true, if_false]; rfl
+  · simp
+
+/-- **Fault.**  A document (after padding is dropped: trailing only at 200, both ends otherwise)
+    whose first `Body/Fault` has children and a numeric (or absent / empty) `errorCode` raises the
+    action error carrying that code and the description — `UpnpActionError` at 200,
+    `UpnpActionResponseError` with the status otherwise — whatever else the document contains. -/
+theorem decode_fault (O : Oracles) (X : XmlOracle) (a : ActionDecl) (status : Int) (text : Str)
+    (doc f : Xml) (rest : List Xml)
+    (hx : X (if status == 200 then rstripPad text else stripPad text) = some (some doc))
+    (hf : faults doc = f :: rest) (hne : f.children.isEmpty = false) (code : Option Int)
+    (hcode : faultCode (f.findTextDesc errorCodeTag) = some code) :
+    decode O X a status (some text) =
+      .exc (if status == 200 then .actionError code (f.findTextDesc errorDescTag)
+            else .actionResponseError code (f.findTextDesc errorDescTag) status) := by
+  have hpf : ∀ st, parseFault doc st = some (match st with
+      | some s => .actionResponseError code (f.findTextDesc errorDescTag) s
+      | none => .actionError code (f.findTextDesc errorDescTag)) := by
+    intro st
+    unfold parseFault
+    simp only [hf, List.head?, Xml.truthy, hne, hcode]
+    cases st <;> simp
+  cases hs : (status == 200) with
+  | true =>
+    have hne' : (status != 200) = false := by simp [bne, hs]
+    simp only [hs, if_true] at hx ⊢
+    unfold decode
+    simp [hne', hx, hpf none]
+  | false =>
+    have hne' : (status != 200) = true := by simp [bne, hs]
+    simp only [hs, Bool.false_eq_true, if_false] at hx ⊢
+    unfold decode
+    simp [hne', hx, hpf (some status)]
+
 /-! ### conversion (C08's model, all 26 types) -/
 
 /-- **A conversion failure is a `ValueError`, nothing else** — for every row (any of the 26 types,
@@ -325,6 +421,58 @@ example :
     ∧ decode exO exX exA 200 (some ['E']) = .exc .unknownArg
     ∧ decode exO exX { exA with strict := false } 200 (some ['E']) = .ret [("CurrentVolume".toList, .int 7)] := by
   refine ⟨?_, ?_, ?_, ?_, ?_, ?_, ?_, ?_⟩ <;> decide +kernel
+/-- a foreign-namespace response element: strict ⇒ library error, non-strict ⇒ tolerated -/
+private def respDocForeign : Xml :=
+  envelope [.node (Xml.clark "urn:x:service:RC:2".toList "GetVolumeResponse".toList) none
+    [.node "CurrentVolume".toList (some "9".toList) []]]
+private def exX2 : XmlOracle := fun t => if t = ['G'] then some (some respDocForeign) else exX t
+
+example :
+    decode exO exX2 exA 200 (some ['G']) = .exc .invalidResponse
+    ∧ decode exO exX2 { exA with strict := false } 200 (some ['G']) = .ret [("CurrentVolume".toList, .int 9)] := by
+  refine ⟨?_, ?_⟩ <;> decide +kernel
+
+private def excObs (cls : String) (code : Option Int := none) (desc : Option Str := none)
+    (status : Option Int := none) (typed : Bool := true) : OutObs :=
+  .exc { info := { cls := cls, mro := genAnc cls }, code := code, desc := desc, status := status, typed := typed }
+
+/-- **The judge is not trivially true**: for each clause a wrong outcome is REJECTED (and the right
+    one accepted) — evaluated on the judge `C07.ok` itself with the generated exception hierarchy. -/
+example :
+    -- success: the right mapping passes; a missing argument, an unconverted (str) value, an extra key,
+    -- an exception instead of the mapping are rejected
+    ok exO exX exA 200 (some ['R']) (.ret [("Mute".toList, .bool true), ("CurrentVolume".toList, .int 42),
+        ("Day".toList, .date ⟨987, 2, 28⟩), ("At".toList, .time ⟨23, 59, 59⟩ (some (-330)))]) = true
+    ∧ ok exO exX exA 200 (some ['R']) (.ret [("Mute".toList, .bool true), ("CurrentVolume".toList, .int 42),
+        ("Day".toList, .date ⟨987, 2, 28⟩)]) = false
+    ∧ ok exO exX exA 200 (some ['R']) (.ret [("Mute".toList, .bool true), ("CurrentVolume".toList, .str " 42 ".toList),
+        ("Day".toList, .date ⟨987, 2, 28⟩), ("At".toList, .time ⟨23, 59, 59⟩ (some (-330)))]) = false
+    ∧ ok exO exX exA 200 (some ['R']) (.ret [("Mute".toList, .bool true), ("CurrentVolume".toList, .int 42),
+        ("Day".toList, .date ⟨987, 2, 28⟩), ("At".toList, .time ⟨23, 59, 59⟩ (some (-330))), ("Channel".toList, .str [])]) = false
+    ∧ ok exO exX exA 200 (some ['R']) (excObs "UpnpError") = false
+    -- fault at 200: code and description are demanded; a plain UpnpError, a wrong code, a `str` code are rejected
+    ∧ ok exO exX exA 200 (some ['F']) (excObs "UpnpActionError" (some 402) (some "Invalid Args".toList)) = true
+    ∧ ok exO exX exA 200 (some ['F']) (excObs "UpnpActionError" (some 401) (some "Invalid Args".toList)) = false
+    ∧ ok exO exX exA 200 (some ['F']) (excObs "UpnpActionError" none (some "Invalid Args".toList) none false) = false
+    ∧ ok exO exX exA 200 (some ['F']) (excObs "UpnpError") = false
+    ∧ ok exO exX exA 200 (some ['F']) (.ret []) = false
+    -- fault at 500: the status must be carried and the class must be a response error too
+    ∧ ok exO exX exA 500 (some ['F']) (excObs "UpnpActionResponseError" (some 402) (some "Invalid Args".toList) (some 500)) = true
+    ∧ ok exO exX exA 500 (some ['F']) (excObs "UpnpActionResponseError" (some 402) (some "Invalid Args".toList) (some 200)) = false
+    ∧ ok exO exX exA 500 (some ['F']) (excObs "UpnpActionError" (some 402) (some "Invalid Args".toList)) = false
+    -- other non-200: response error WITH the status
+    ∧ ok exO exX exA 404 (some "<html>".toList) (excObs "UpnpResponseError" none none (some 404)) = true
+    ∧ ok exO exX exA 404 (some "<html>".toList) (excObs "UpnpResponseError") = false
+    ∧ ok exO exX exA 500 (some ['R']) (.ret [("CurrentVolume".toList, .int 42)]) = false
+    -- not XML at 200: the XML-parse error, not just any library error
+    ∧ ok exO exX exA 200 (some "<html>".toList) (excObs "UpnpXmlParseError") = true
+    ∧ ok exO exX exA 200 (some "<html>".toList) (excObs "UpnpError") = false
+    -- unknown argument / foreign namespace: strict must raise, non-strict must return the known arguments
+    ∧ ok exO exX exA 200 (some ['E']) (.ret [("CurrentVolume".toList, .int 7)]) = false
+    ∧ ok exO exX { exA with strict := false } 200 (some ['E']) (excObs "UpnpError") = false
+    ∧ ok exO exX2 exA 200 (some ['G']) (.ret [("CurrentVolume".toList, .int 9)]) = false
+    ∧ ok exO exX2 { exA with strict := false } 200 (some ['G']) (excObs "UpnpError") = false := by
+  refine ⟨?_, ?_, ?_, ?_, ?_, ?_, ?_, ?_, ?_, ?_, ?_, ?_, ?_, ?_, ?_, ?_, ?_, ?_, ?_, ?_, ?_, ?_⟩ <;> decide +kernel
 end Example
 
 end Upnp.C07
